@@ -323,7 +323,7 @@ func (rb *replayBuilder) run(hs HarnessSpec, rfile string) ([]string, string) {
 	txt := buf.String()
 	var lines []string
 	for _, l := range strings.Split(txt, "\n") {
-		if strings.HasPrefix(l, "VERIF-REPLAY") {
+		if strings.HasPrefix(l, "VERIF-REPLAY") || strings.HasPrefix(l, "VERIF-DEBUG") {
 			lines = append(lines, l)
 		}
 	}
